@@ -519,6 +519,33 @@ theorem short_page_is_last {lt : κ → κ → Bool} (ht : StrictTotal lt) {xs :
   rw [← hx, hc] at this
   simpa using this
 
+/-- **How many requests**: for a listing of `n` items and effective page size `e = min (limit or 10) 30`, the
+client loop is complete after `⌊n / e⌋ + 2` requests (the full pages, possibly one short page, and the empty page
+that ends it) — e.g. 3 requests for 35 items at the maximum page size.  (`length + 1` of the other theorems is the
+bound for page size 1.) -/
+theorem paginate_complete_pages {lt : κ → κ → Bool} (ht : StrictTotal lt) {xs : List (κ × ν)} (h : Sorted lt xs)
+    {limit : Option Nat} (hl : limit ≠ some 0) :
+    fetchAll lt xs limit none (xs.length / effLimit limit + 2) = xs :=
+  fetchAll_complete_pages ht h (effLimit_pos hl)
+
+/-- The same for a model query (`page` of `sortedEntries` up to a projection). -/
+theorem listing_complete_pages [DecidableEq κ] {α : Type} {lt : κ → κ → Bool} (ht : StrictTotal lt)
+    {m : AMap κ ν} (hm : AMap.NodupKeys m) {limit : Option Nat} (hl : limit ≠ some 0)
+    {q : Option κ → List α} {key : α → κ} {f : κ × ν → α}
+    (hq : ∀ c, q c = (page lt (sortedEntries lt m) c limit).map f) (hk : ∀ x, key (f x) = x.1) :
+    fetchLoop q key none (m.length / effLimit limit + 2) = (sortedEntries lt m).map f := by
+  rw [fetchLoop_eq_fetchAll hq hk]
+  have := fetchAll_complete_pages ht (sortedEntries_sorted hm ht) (effLimit_pos hl) (limit := limit)
+  rw [sortedEntries_length] at this
+  rw [this]
+
+/-- `AllAccounts` with the tight request bound. -/
+theorem all_accounts_complete_pages {s : State} (hs : AMap.NodupKeys s.balances) (limit : Option Nat)
+    (hl : limit ≠ some 0) :
+    fetchLoop (fun c => queryAllAccounts s c limit) id none (s.balances.length / effLimit limit + 2)
+      = (sortedEntries strLt s.balances).map (·.1) :=
+  listing_complete_pages strictTotal_strLt hs hl (f := (·.1)) (key := id) (fun _ => rfl) (fun _ => rfl)
+
 /-! ## Non-vacuity: concrete listings with more than 30 items -/
 
 /-- 35 items with keys 0, 2, …, 68. -/
@@ -591,5 +618,12 @@ example : fetchLoop (fun c => okItems (queryOwnerAllowances sEx ⟨true, "a"⟩ 
   decide
 example : ("b", ⟨6, .never⟩) ∈ sortedEntries strLt (spenderPrefix sEx "s1") :=
   (spender_allowances_exact sEx_nodup.allowSp "b" "s1" ⟨6, .never⟩).mpr (by decide)
+
+
+/-- `paginate_complete_pages`: 35 items, page size 30: 35 / 30 + 2 = 3 requests; page size 10: 5 requests. -/
+example : fetchAll natLt xs35 (some 31) none (xs35.length / effLimit (some 31) + 2) = xs35 :=
+  paginate_complete_pages strictTotal_natLt (by unfold Sorted; decide) (by decide)
+example : xs35.length / effLimit (some 31) + 2 = 3 ∧ xs35.length / effLimit none + 2 = 5 := by decide
+example : fetchAll natLt xs35 (some 31) none 1 ≠ xs35 := by decide   -- one request is not enough (two already return all 35 items; the third sees the empty page)
 
 end CwPlus.Props.C20
